@@ -400,6 +400,11 @@ impl<R: Read> Reader<R> {
         })
     }
 
+    /// Returns the header of this entry: a cpio header, or the file index of a stripped entry.
+    pub fn entry(&self) -> &RpmPayloadEntry {
+        &self.entry
+    }
+
     /// Returns the metadata for this entry.
     pub fn is_trailer(&self) -> bool {
         match &self.entry {
